@@ -81,6 +81,8 @@ fn scenarios<TC: ModelCfg>(quick: bool, three: bool) -> Vec<ScCase> {
     let y = b"y".to_vec();
     let z = b"z".to_vec();
     let initial1: Vec<Batch> = vec![vec![(a.clone(), x.clone())]];
+    let sa = shape_alphabet::<TC>(0);
+    let (sp, sq, sr, ss) = (sa.labels[0].clone(), sa.labels[1].clone(), sa.labels[2].clone(), sa.labels[3].clone());
     let pairs: Vec<(&'static str, Vec<Batch>, Batch, Batch)> = vec![
         ("disjoint_inserts", initial1.clone(), vec![(b.clone(), x.clone())], vec![(c.clone(), x.clone())]),
         ("same_label_updates", initial1.clone(), vec![(a.clone(), y.clone())], vec![(a.clone(), z.clone())]),
@@ -89,6 +91,9 @@ fn scenarios<TC: ModelCfg>(quick: bool, three: bool) -> Vec<ScCase> {
         ("same_insert_twice", initial1.clone(), vec![(b.clone(), x.clone())], vec![(b.clone(), x.clone())]),
         ("first_epoch_inserts", vec![], vec![(a.clone(), x.clone())], vec![(b.clone(), x.clone())]),
         ("mixed_batches", initial1.clone(), vec![(a.clone(), y.clone()), (b.clone(), x.clone())], vec![(b.clone(), y.clone()), (c.clone(), x.clone())]),
+        // tree-shape pair: over the interior node of {p,q}, one publish splits the compressed edge above it, the
+        // other inserts below it
+        ("shape_split_vs_insert_below", vec![vec![(sp.clone(), x.clone()), (sq.clone(), x.clone())]], vec![(sr.clone(), x.clone())], vec![(ss.clone(), x.clone())]),
     ];
     let mut out = vec![];
     for (name, initial, b1, b2) in pairs {
